@@ -1387,13 +1387,13 @@ Proof.
   { unfold t0, T_run. cbn. destruct (0 <? capv); reflexivity. }
   assert (HPh : Ph k (f_name f) (f_nr f) (f_size f) (f_bs f) capv i 1 [] s2).
   { apply update_state_shape in Eu. cbn in Eu. destruct Eu as [E1 [E2 _]]. unfold Ph. rewrite E1, E2. split; [|split].
-    - cbn. rewrite key_eqb_refl. reflexivity.
-    - intros k' Hk'. cbn in Hk'. destruct (key_eqb k' k) eqn:E; [apply key_eqb_spec; exact E|].
+    - cbn [lookup_key]. rewrite key_eqb_refl. reflexivity.
+    - intros k' Hk'. cbn [lookup_key] in Hk'. destruct (key_eqb k' k) eqn:E; [apply key_eqb_spec; exact E|].
       destruct (inv_idx _ _ _ HI1 k' i Hk') as [tx [Hx _]]. exfalso.
       assert (Hlt : (i < length (s_transfers s1))%nat) by (apply nth_error_Some; rewrite Hx; discriminate). unfold i in Hlt. lia.
     - rewrite nth_error_map, nth_error_app2 by (unfold i; lia). unfold i. rewrite Nat.sub_diag. cbn.
-      rewrite <- Ht0. rewrite ho_t_id; [reflexivity|]. unfold takes, t0. cbn. apply andb_false_r. }
-  assert (HD : Done c k (f_name f) capv i (concat chunks) s).
+      rewrite <- Ht0. reflexivity. }
+  assert (HD : Done c k (f_name f) i (concat chunks) s).
   { apply (InOrder_run c k (f_name f) (f_nr f) (f_size f) (f_bs f) capv i Eb En 1 chunks post Hio s2 [] s r3); auto; try lia.
     intros Ha. unfold capv. rewrite Ha. cbn. apply flst_capacity_pos; assumption. }
   destruct HD as [t [D1 [D2 [D3 [D4 [D5 [D6 [D7 [D8 [D9 D10]]]]]]]]]].
